@@ -6,6 +6,10 @@
 // ---------------------------------------------------------------------------
 pub struct OsIpcOneShotServer { pub ghost sid: int }
 pub struct OsIpcReceiver { pub ghost rid: int }
+pub enum IpcError { Bincode(BincodeError), Io(IoError), Disconnected }
+pub enum TryRecvError { IpcError(IpcError), Empty }
+pub use std::time::Duration;
+pub enum RecvKind { Blocking, Nonblocking, Timeout(Duration) }
 pub struct OsIpcSender { pub ghost xid: int }
 pub struct OsOpaqueIpcChannel { pub ghost cid: int }
 pub struct OsIpcSharedMemory { pub ghost mid: int }
@@ -28,7 +32,13 @@ pub struct O {
     pub accepted: Option<(int, int, Seq<u8>, Seq<OsOpaqueIpcChannel>, Seq<OsIpcSharedMemory>)>,   // (server, receiver, first message) of the latest platform accept
     pub connected: Option<(int, Seq<char>)>,   // platform sender made by the latest OsIpcSender::connect, and the name used
     pub decodes: nat,                          // how many messages have been decoded
+    pub recvs: Seq<(int, RecvKind)>,           // platform receives: (receiver, kind), in order
+    pub got: Option<(Seq<u8>, Seq<OsOpaqueIpcChannel>, Seq<OsIpcSharedMemory>)>,   // what the latest successful platform receive returned
+    pub failed: nat,                           // platform receives that returned an error
+    pub last_ipc_err: Option<IpcError>,        // ... and the latest such error (blocking receive)
+    pub last_try_err: Option<TryRecvError>,    // ... (non-blocking / timed receive)
 }
+pub open spec fn same_oneshot(o0: O, o1: O) -> bool { o1.created == o0.created && o1.accepted == o0.accepted && o1.connected == o0.connected }
 // the message a decoded value was decoded from
 pub uninterp spec fn value_src<T>(v: T) -> (Seq<u8>, Seq<OsOpaqueIpcChannel>, Seq<Option<OsIpcSharedMemory>>);
 
@@ -36,12 +46,14 @@ impl OsIpcOneShotServer {
     #[verifier::external_body]
     pub fn new(Tracked(o): Tracked<&mut O>) -> (r: Result<(OsIpcOneShotServer, String), IoError>)
         ensures final(o).accepted == old(o).accepted, final(o).connected == old(o).connected, final(o).decodes == old(o).decodes,
+                final(o).recvs == old(o).recvs, final(o).got == old(o).got,
                 r matches Ok((srv, name)) ==> final(o).created == Some((srv.sid, name@)),
                 r is Err ==> final(o).created == old(o).created,
     { unimplemented!() }
     #[verifier::external_body]
     pub fn accept(self, Tracked(o): Tracked<&mut O>) -> (r: Result<(OsIpcReceiver, Vec<u8>, Vec<OsOpaqueIpcChannel>, Vec<OsIpcSharedMemory>), BincodeError>)
         ensures final(o).created == old(o).created, final(o).connected == old(o).connected, final(o).decodes == old(o).decodes,
+                final(o).recvs == old(o).recvs, final(o).got == old(o).got,
                 r matches Ok((rx, d, c, m)) ==> final(o).accepted == Some((self.sid, rx.rid, d@, c@, m@)),
                 r is Err ==> final(o).accepted == old(o).accepted,
     { unimplemented!() }
@@ -50,6 +62,7 @@ impl OsIpcSender {
     #[verifier::external_body]
     pub fn connect(name: String, Tracked(o): Tracked<&mut O>) -> (r: Result<OsIpcSender, IoError>)
         ensures final(o).created == old(o).created, final(o).accepted == old(o).accepted, final(o).decodes == old(o).decodes,
+                final(o).recvs == old(o).recvs, final(o).got == old(o).got,
                 r matches Ok(s) ==> final(o).connected == Some((s.xid, name@)),
                 r is Err ==> final(o).connected == old(o).connected,
     { unimplemented!() }
@@ -59,7 +72,7 @@ impl OpaqueIpcMessage {
     #[verifier::external_body]
     pub fn to<T>(self, Tracked(o): Tracked<&mut O>) -> (r: Result<T, BincodeError>)
         ensures final(o).created == old(o).created, final(o).accepted == old(o).accepted, final(o).connected == old(o).connected,
-                final(o).decodes == old(o).decodes + 1,
+                final(o).decodes == old(o).decodes + 1, final(o).recvs == old(o).recvs, final(o).got == old(o).got, final(o).failed == old(o).failed,
                 r matches Ok(v) ==> value_src(v) == (self.data@, self.os_ipc_channels@, self.os_ipc_shared_memory_regions@),
     { unimplemented!() }
 }
@@ -69,3 +82,31 @@ pub fn wrap_some<T>(v: Vec<T>) -> (r: Vec<Option<T>>)
     ensures r@ == wrapped(v@)
 { v.into_iter().map(Some).collect() }
 pub open spec fn wrapped<T>(s: Seq<T>) -> Seq<Option<T>> { Seq::new(s.len(), |i: int| Some(s[i])) }
+
+// platform receives (units U3/K4) with `?`'s From<UnixError> conversion (unit U4b) folded in: the error the caller sees
+impl OsIpcReceiver {
+    #[verifier::external_body]
+    pub fn recv(&self, Tracked(o): Tracked<&mut O>) -> (r: Result<(Vec<u8>, Vec<OsOpaqueIpcChannel>, Vec<OsIpcSharedMemory>), IpcError>)
+        ensures same_oneshot(*old(o), *final(o)), final(o).decodes == old(o).decodes,
+                final(o).recvs == old(o).recvs.push((self.rid, RecvKind::Blocking)),
+                r matches Ok(t) ==> final(o).got == Some((t.0@, t.1@, t.2@)) && final(o).failed == old(o).failed,
+                r matches Err(e) ==> final(o).got == old(o).got && final(o).failed == old(o).failed + 1 && final(o).last_ipc_err == Some(e),
+    { unimplemented!() }
+    #[verifier::external_body]
+    pub fn try_recv(&self, Tracked(o): Tracked<&mut O>) -> (r: Result<(Vec<u8>, Vec<OsOpaqueIpcChannel>, Vec<OsIpcSharedMemory>), TryRecvError>)
+        ensures same_oneshot(*old(o), *final(o)), final(o).decodes == old(o).decodes,
+                final(o).recvs == old(o).recvs.push((self.rid, RecvKind::Nonblocking)),
+                r matches Ok(t) ==> final(o).got == Some((t.0@, t.1@, t.2@)) && final(o).failed == old(o).failed,
+                r matches Err(e) ==> final(o).got == old(o).got && final(o).failed == old(o).failed + 1 && final(o).last_try_err == Some(e),
+    { unimplemented!() }
+    #[verifier::external_body]
+    pub fn try_recv_timeout(&self, duration: Duration, Tracked(o): Tracked<&mut O>) -> (r: Result<(Vec<u8>, Vec<OsOpaqueIpcChannel>, Vec<OsIpcSharedMemory>), TryRecvError>)
+        ensures same_oneshot(*old(o), *final(o)), final(o).decodes == old(o).decodes,
+                final(o).recvs == old(o).recvs.push((self.rid, RecvKind::Timeout(duration))),
+                r matches Ok(t) ==> final(o).got == Some((t.0@, t.1@, t.2@)) && final(o).failed == old(o).failed,
+                r matches Err(e) ==> final(o).got == old(o).got && final(o).failed == old(o).failed + 1 && final(o).last_try_err == Some(e),
+    { unimplemented!() }
+}
+// serde's traits (stand-ins, D6): only mentioned in where clauses here
+pub trait Serialize {}
+pub trait Deserialize<'de>: Sized {}
